@@ -25,6 +25,7 @@ ENC = "coba/encodings.py"
 def run(ctx):
     r1_key_domain(ctx)
     r2_alignment(ctx)
+    r3_none_normalisation(ctx)
 
 
 def r1_key_domain(ctx):
@@ -151,7 +152,23 @@ def r2_alignment(ctx):
     ctx.ob("C20.R2", ENC, "InteractionsEncoder.__init__", cp[0] if cp else init, "terms are kept in the order given, each as namespace -> power", ok, stmt="_cross_pows order")
 
 
+def r3_none_normalisation(ctx):
+    ctx.rule("C20.R3", "a namespace is replaced by the empty vector only when it `is None` -- a scalar 0, 0.0 or '' is a vector of length one, not a missing namespace")
+    fn = ctx.fn(ENC, "InteractionsEncoder.encode")
+    norms = [x for x in walk_shallow(fn) if isinstance(x, ast.Assign) and unparse(x.targets[0]) == "ns_raw_values" and isinstance(x.value, ast.DictComp)]
+    ctx.floor("C20.R3", "namespace normalisations", len(norms), 1)
+    for x in norms:
+        v = x.value.value
+        val = unparse(x.value.generators[0].target.elts[1]) if isinstance(x.value.generators[0].target, ast.Tuple) else "v"
+        ok = isinstance(v, ast.IfExp) and ((unparse(v.test) == f"{val} is not None" and unparse(v.body) == val and unparse(v.orelse) == "[]") or
+                                           (unparse(v.test) == f"{val} is None" and unparse(v.orelse) == val and unparse(v.body) == "[]"))
+        ctx.ob("C20.R3", ENC, "InteractionsEncoder.encode", x, "None (and only None) is normalised to the empty namespace", ok, detail={"value": unparse(v)})
+    tru = [x for x in walk_shallow(fn) if isinstance(x, ast.BoolOp) and isinstance(x.op, ast.Or) and any(unparse(o) in ("[]", "{}", "()") for o in x.values[1:])]
+    ctx.ob("C20.R3", ENC, "InteractionsEncoder.encode", tru[0] if tru else fn, "no namespace value is defaulted by truthiness (`x or []`)", not tru, stmt="no truthiness default")
+
+
 CONTROLS = [
+    ("falsy scalar treated as missing", ENC, M.replace_expr("InteractionsEncoder.encode", "v if v is not None else []", "v or []"), "C20.R3"),
     ("absent namespace not completed", ENC, M.replace_stmt("InteractionsEncoder.encode", lambda st: isinstance(st, ast.For) and "setdefault" in ast.unparse(st), "pass"), "C20.R1"),
     ("string arm of _pows iterates differently", ENC, M.replace_expr("InteractionsEncoder._pows", "[v + t for v, s in zip(values, starts) for t in terms[d][s - 1:]]",
                                                                       "[v + t for v, s in zip(values, starts) for t in terms[d][s:]]"), "C20.R2"),
